@@ -25,6 +25,70 @@ pub const SUBS: &[SubDef] = &[SubDef { prop: "C14", name: "lists", oracle: lists
 fn run(ctx: &Ctx) {
     ctx.run_tape("lists", lists, ctx.pick(120_000, 400_000), 400);
     ctx.run_tape("overlong", overlong, ctx.pick(120_000, 400_000), 400);
+    // "for every list": whatever the size of the buffer the list sits in. Lists at the start of buffers of 10 MiB +- 1, 16 MiB + 3 and
+    // 2^32 + k bytes (zero pages, never touched), through the list parser and the single-SCT parser
+    let seed = ctx.seed;
+    let per = ctx.pick(6, 40);
+    ctx.run_fn("large_buffers", false, "generated lists at the start of zero-filled buffers of 10 MiB - 1 .. 16 MiB + 3 and 2^32 + k bytes", move |obs| {
+        const N: usize = (1usize << 32) + (1 << 20);
+        let mut big: Vec<u8> = Vec::new();
+        let have_4g = big.try_reserve_exact(N).is_ok();
+        big = vec![0u8; if have_4g { N } else { 17 << 20 }];
+        if !have_4g {
+            obs.class("4GiB-address-space-unavailable");
+        }
+        for k in 0..per {
+            let tape = vmodel::tape::fill(seed ^ (0xC14B + k), 400);
+            let mut t = Tape::new(&tape);
+            let mut l = gen_sct_list(&mut t);
+            if l.is_empty() {
+                l.push(gen_sct(&mut t, 200));
+            }
+            let enc = encode_sct_list(&l).buf;
+            let mut first = vmodel::wire::Enc::new();
+            l[0].encode(&mut first);
+            big[..enc.len()].copy_from_slice(&enc);
+            let mut totals: Vec<usize> = vec![(10 << 20) - 1, 10 << 20, (10 << 20) + 1, (10 << 20) + 2 + first.buf.len(), (16 << 20) + 3];
+            if have_4g {
+                totals.extend([1usize << 32, (1 << 32) + 1, (1 << 32) + 2, (1 << 32) + 5, (1 << 32) + 16, (1 << 32) + 100, (1 << 32) + enc.len(), N]);
+            }
+            let mut res = Ok(());
+            for total in totals {
+                if total < enc.len() {
+                    continue;
+                }
+                obs.evals_add(2);
+                let buf = &big[..total];
+                res = (|| {
+                    match call_list(buf)? {
+                        Ok((off, rl, v)) => {
+                            ensure!(v == l, "C14:large-buffers:list-value", "list at the start of a {}-byte buffer: decoded {} SCT(s), expected {}", total, v.len(), l.len());
+                            ensure!(rl == total - enc.len() && off == enc.len(), "C14:large-buffers:list-remainder", "list at the start of a {}-byte buffer: remainder {} bytes at {}, expected {} at {}", total, rl, off, total - enc.len(), enc.len());
+                        }
+                        Err(e) => return fail("C14:large-buffers:list-rejected", format!("a well-formed list of {} SCT(s) ({} bytes) at the start of a {}-byte buffer was rejected with {}", l.len(), enc.len(), total, e)),
+                    }
+                    let inner = &buf[2..];
+                    let r = guard("parse_ct_signed_certificate_timestamp", || match parse_ct_signed_certificate_timestamp(inner) {
+                        Ok((rem, s)) => Ok((inner.len() - rem.len(), conv::sct(&s))),
+                        Err(e) => Err(format!("{:?}", e.map(|x| x.code))),
+                    })?;
+                    match r {
+                        Ok((used, s)) => ensure!(s == l[0] && used == first.buf.len(), "C14:large-buffers:single-value", "single-SCT parser on a {}-byte buffer: consumed {} bytes (entry is {})", inner.len(), used, first.buf.len()),
+                        Err(e) => return fail("C14:large-buffers:single-rejected", format!("single-SCT parser rejected a well-formed {}-byte entry at the start of a {}-byte buffer: {}", first.buf.len(), inner.len(), e)),
+                    }
+                    Ok(())
+                })();
+                if res.is_err() {
+                    break;
+                }
+            }
+            big[..enc.len()].iter_mut().for_each(|x| *x = 0);
+            res?;
+            obs.nontrivial(fnv64(&enc));
+            obs.sample(json!({"scts": l.len(), "list_bytes": enc.len(), "buffers": if have_4g { "10 MiB-1 .. 2^32+2^20" } else { "10 MiB-1 .. 16 MiB+3" }}));
+        }
+        Ok(())
+    });
 }
 
 type Got = Result<(usize, usize, Vec<MSct>), String>;
